@@ -1,5 +1,7 @@
 import DoviModel.Model.Av1
 import DoviModel.Proofs.Bits
+import DoviModel.Proofs.Av1Proof
+import DoviModel.Props.C03
 /-!
 # C15 — AV1 ITU-T T.35 wrapping round-trips every RPU of every size
 -/
@@ -85,5 +87,275 @@ payload id 31, id extension 225, flags — i.e. the nine header bytes and the th
 theorem emdf_prefix_bits :
     wcat [writeN 16 0x3B, writeN 32 0x800, writeEmdfHeader] =
       .ok (bytesToBits headerBytes ++ [false, false, true]) := by decide
+
+/-! ## the whole wrapper: `convert_regular_rpu_to_av1_payload` then `convert_av1_rpu_payload_to_regular`
+
+Sizes. `p` below is the EMDF payload: the RPU bytes without the `0x19` prefix and without the trailing zero
+bytes, so `p.length = data.length - trailingZeroes data - 1`. The size field is `variable_bits(8)`; the writer
+emits at most two groups, whose largest value is `256·256 + 255 = 65791`:
+
+* `p.length ≤ 65791`  — written (`wrap_never_fails`), 13 bytes of overhead below 256 and 14 from 256 on;
+* `p.length ≥ 65792`  — rejected with an error, never a panic (`wrap_rejects_larger`; first group value 256 does
+  not fit 8 bits: "excessive value for bits written");
+* reading back needs the T.35 payload to be at least 34 bytes (`av1_validated_trimmed_data`), i.e.
+  `p.length ≥ 21` without and `p.length ≥ 20` with the `0xB5` country code; below that the written payload is
+  refused by the reader (`short_payload_not_read_back`) — no RPU is that short (the property's minimum is 24). -/
+
+open Dovi.Av1Proof
+
+/-- the bytes of `data` up to its trailing zero padding (what the wrapper keeps) -/
+abbrev rpuBytes (data : Bytes) : Bytes := data.take (data.length - trailingZeroes data)
+
+/-- **payload level, every size 21 … 65791** (1-group form below 256, 2-group form from 256, the carry at
+256 = `0x00 1 0x00 0` and the maximum 65791 = `0xFF 1 0xFF 0` included): `wrapPayload` succeeds, and reading
+the result back — with or without the `0xB5` country code in front — gives the payload with the `0x19` prefix
+re-added, byte for byte. -/
+theorem payload_roundtrip (p : Bytes) (hlo : 21 ≤ p.length) (hhi : p.length ≤ 65791) :
+    ∃ o, wrapPayload p = .ok o ∧ unwrap o = .ok (0x19 :: p) ∧ unwrap (0xB5 :: o) = .ok (0x19 :: p) := by
+  obtain ⟨o, hw, _, _, h1, h2⟩ := wrapPayload_roundtrip p hhi
+  exact ⟨o, hw, h1 hlo, h2 (by omega)⟩
+
+example : ∃ p : Bytes, 21 ≤ p.length ∧ p.length ≤ 65791 := ⟨List.replicate 256 7, by rw [List.length_replicate]; omega⟩
+
+/-- **C15, round trip.** For every buffer that starts with `0x19` and ends — before any trailing zero bytes —
+with `0x80`, whose length without the zero padding is 22 … 65792 (payload 21 … 65791), the wrapper succeeds and
+unwrapping its output returns the buffer without the trailing zero bytes, byte for byte. -/
+theorem av1_roundtrip (data : Bytes) (h19 : data.head? = some 0x19)
+    (hlast : (rpuBytes data).getLast? = some 0x80)
+    (hlo : 22 ≤ data.length - trailingZeroes data) (hhi : data.length - trailingZeroes data ≤ 65792) :
+    ∃ o, wrap data = .ok o ∧ unwrap o = .ok (rpuBytes data) := by
+  have hpl := payload_length data
+  obtain ⟨o, hw, hu, _⟩ := payload_roundtrip ((rpuBytes data).drop 1)
+    (by simp only [rpuBytes, rpuEnd] at hpl ⊢; omega) (by simp only [rpuBytes, rpuEnd] at hpl ⊢; omega)
+  refine ⟨o, ?_, ?_⟩
+  · rw [wrap_eq h19 hlast]; exact hw
+  · rw [hu, cons_drop_take h19 (by simp only [rpuEnd]; omega)]
+
+/-- the same through `write_av1_rpu_metadata_obu_t35_complete`: the output starts with the `0xB5` country code
+and is read back to the same bytes (one byte shorter inputs are still read back: 21 instead of 22) -/
+theorem av1_roundtrip_complete (data : Bytes) (h19 : data.head? = some 0x19)
+    (hlast : (rpuBytes data).getLast? = some 0x80)
+    (hlo : 21 ≤ data.length - trailingZeroes data) (hhi : data.length - trailingZeroes data ≤ 65792) :
+    ∃ o, wrapComplete data = .ok o ∧ o.head? = some 0xB5 ∧ unwrap o = .ok (rpuBytes data) := by
+  have hpl := payload_length data
+  obtain ⟨o, hw, _, _, _, hu⟩ := wrapPayload_roundtrip ((rpuBytes data).drop 1)
+    (by simp only [rpuBytes, rpuEnd] at hpl ⊢; omega)
+  refine ⟨0xB5 :: o, ?_, rfl, ?_⟩
+  · unfold wrapComplete
+    rw [wrap_eq h19 hlast]
+    show (wrapPayload ((rpuBytes data).drop 1)).bind _ = _
+    rw [hw]; rfl
+  · rw [hu (by simp only [rpuBytes, rpuEnd] at hpl ⊢; omega),
+      cons_drop_take h19 (by simp only [rpuEnd]; omega)]
+
+/-- the explicit form: prefix, `q`, terminator, `z` zero bytes ↦ prefix, `q`, terminator -/
+theorem av1_roundtrip_explicit (q : Bytes) (z : Nat) (hlo : 20 ≤ q.length) (hhi : q.length ≤ 65790) :
+    ∃ o, wrap (0x19 :: q ++ [0x80] ++ List.replicate z 0) = .ok o ∧ unwrap o = .ok (0x19 :: q ++ [0x80]) ∧
+      unwrap (0xB5 :: o) = .ok (0x19 :: q ++ [0x80]) := by
+  have htz : trailingZeroes (0x19 :: q ++ [0x80] ++ List.replicate z 0) = z := trailingZeroes_tail (0x19 :: q) z
+  have hlen : (0x19 :: q ++ [0x80] ++ List.replicate z 0).length = q.length + 2 + z := by simp; omega
+  have hrb : rpuBytes (0x19 :: q ++ [0x80] ++ List.replicate z 0) = 0x19 :: q ++ [0x80] := by
+    unfold rpuBytes
+    rw [htz, hlen, Nat.add_sub_cancel]
+    exact List.take_left' (by simp)
+  have h19 : (0x19 :: q ++ [0x80] ++ List.replicate z 0).head? = some 0x19 := rfl
+  have hlast : (rpuBytes (0x19 :: q ++ [0x80] ++ List.replicate z 0)).getLast? = some 0x80 := by
+    rw [hrb]; exact List.getLast?_eq_some_iff.mpr ⟨0x19 :: q, rfl⟩
+  obtain ⟨o, hw, hu⟩ := av1_roundtrip _ h19 hlast (by rw [htz, hlen]; omega) (by rw [htz, hlen]; omega)
+  obtain ⟨o', hw', _, hu'⟩ := av1_roundtrip_complete _ h19 hlast (by rw [htz, hlen]; omega) (by rw [htz, hlen]; omega)
+  unfold wrapComplete at hw'
+  rw [hw] at hw'
+  cases hw'
+  rw [hrb] at hu hu'
+  exact ⟨o, hw, hu, hu'⟩
+
+/-- non-vacuity: a 258-byte RPU-shaped buffer (payload of exactly 256 bytes, the size the unrepaired code could
+not encode) with three trailing zero bytes -/
+example : ∃ o, wrap (0x19 :: List.replicate 255 7 ++ [0x80] ++ List.replicate 3 0) = .ok o ∧
+    unwrap o = .ok (0x19 :: List.replicate 255 7 ++ [0x80]) :=
+  let ⟨o, h1, h2, _⟩ := av1_roundtrip_explicit (List.replicate 255 7) 3
+    (by rw [List.length_replicate]; omega) (by rw [List.length_replicate]; omega)
+  ⟨o, h1, h2⟩
+
+/-- **C15, encoding never fails** (no "excessive value for bits written") for any `0x19 … 0x80 00*` buffer of up
+to 65792 bytes before the zero padding — no lower bound on the size -/
+theorem wrap_never_fails (data : Bytes) (h19 : data.head? = some 0x19)
+    (hlast : (rpuBytes data).getLast? = some 0x80) (hhi : data.length - trailingZeroes data ≤ 65792) :
+    ∃ o, wrap data = .ok o ∧ o.length = data.length - trailingZeroes data - 1 +
+      (if data.length - trailingZeroes data - 1 ≥ 256 then 14 else 13) := by
+  have hpl := payload_length data
+  obtain ⟨o, hw, hl, _⟩ := wrapPayload_roundtrip ((rpuBytes data).drop 1)
+    (by simp only [rpuBytes, rpuEnd] at hpl ⊢; omega)
+  refine ⟨o, ?_, ?_⟩
+  · rw [wrap_eq h19 hlast]; exact hw
+  · simp only [rpuBytes, rpuEnd] at hpl hl
+    rw [hl, hpl]
+
+/-- … and the first size beyond the bound (payload 65792 = `0x100 1 0x00 0`: the first group does not fit
+8 bits) and every larger one is rejected with an error — not a panic, and not a wrong size field -/
+theorem wrap_rejects_larger (data : Bytes) (h19 : data.head? = some 0x19)
+    (hlast : (rpuBytes data).getLast? = some 0x80) (hbig : 65793 ≤ data.length - trailingZeroes data) :
+    wrap data = .error := by
+  have hpl := payload_length data
+  rw [wrap_eq h19 hlast]
+  exact wrapPayload_too_big _ (by simp only [rpuEnd] at hpl ⊢; omega)
+
+example : writeVB 8 65791 = .ok (toBits 8 255 ++ [true] ++ toBits 8 255 ++ [false]) := by decide
+example : writeVB 8 65792 = .error := by decide
+
+/-- **C15, fixed header** — for every input on which the wrapper succeeds (whatever its size or content) the
+output starts with the nine T.35/EMDF header bytes; with the country code, `0xB5` and then those nine -/
+theorem av1_header_fixed (data o : Bytes) (h : wrap data = .ok o) : o.take 9 = headerBytes := by
+  obtain ⟨_, _, hw⟩ := (wrap_ok_iff data o).mp h
+  obtain ⟨vb, _, rfl⟩ := (wrapPayload_ok_iff _ o).mp hw
+  rw [outBytes_header]
+  exact List.take_left' rfl
+
+theorem av1_header_fixed_complete (data o : Bytes) (h : wrapComplete data = .ok o) :
+    o.take 10 = 0xB5 :: headerBytes := by
+  unfold wrapComplete at h
+  cases hw : wrap data with
+  | ok o' =>
+    rw [hw] at h
+    cases h
+    have := av1_header_fixed data o' hw
+    rw [show (10 : Nat) = 9 + 1 from rfl, List.take_succ_cons, this]
+  | error => rw [hw] at h; cases h
+  | panic => rw [hw] at h; cases h
+
+/-- the declared payload size as the reader sees it: provider code, provider-oriented code, EMDF container
+header, `emdf_payload_size` -/
+def declaredSize : P Nat := do
+  let _ ← readN 16
+  let _ ← readN 32
+  parseEmdf
+
+/-- **C15, exact size and layout** — for every input on which the wrapper succeeds: the output is
+`payload + 13` bytes (`+ 14` from 256 on); its bits are the nine header bytes, `001`, the size field, the
+payload bytes, the 17 trailer bits and fewer than 8 one-bits of padding; and the size the reader decodes from it
+is exactly the number of payload bytes, with the reader then positioned at the payload. -/
+theorem av1_size_exact (data o : Bytes) (h : wrap data = .ok o) :
+    ∃ vb pad, writeVB 8 ((rpuBytes data).drop 1).length = .ok vb ∧
+      ((rpuBytes data).drop 1).length = data.length - trailingZeroes data - 1 ∧
+      pad.length < 8 ∧ pad.all (· == true) = true ∧
+      bytesToBits o = bytesToBits headerBytes ++ [false, false, true] ++ vb ++
+        bytesToBits ((rpuBytes data).drop 1) ++ tailBits ++ pad ∧
+      declaredSize (bytesToBits o) =
+        .ok (data.length - trailingZeroes data - 1, bytesToBits ((rpuBytes data).drop 1) ++ (tailBits ++ pad)) ∧
+      o.length = data.length - trailingZeroes data - 1 +
+        (if data.length - trailingZeroes data - 1 ≥ 256 then 14 else 13) := by
+  obtain ⟨_, _, hw⟩ := (wrap_ok_iff data o).mp h
+  obtain ⟨vb, hvb, rfl⟩ := (wrapPayload_ok_iff _ o).mp hw
+  have hpl := payload_length data
+  simp only [rpuEnd] at hpl hvb
+  obtain ⟨_, hrd⟩ := writeVB8_ok hvb
+  have hl1 : 1 ≤ vb.length := by
+    have := writeVB_length hvb
+    split at this <;> omega
+  refine ⟨vb, padOnes (body vb ((rpuBytes data).drop 1)).length, hvb, hpl, ?_, ?_, ?_, ?_, ?_⟩
+  · rw [padOnes_length]; omega
+  · simp [padOnes]
+  · rw [outBytes_bits hvb]
+    simp only [body, preBits, List.append_assoc]
+  · rw [outBytes_bits hvb]
+    have e : body vb ((rpuBytes data).drop 1) ++ padOnes (body vb ((rpuBytes data).drop 1)).length =
+        preBits ++ (vb ++ (bytesToBits ((rpuBytes data).drop 1) ++
+          (tailBits ++ padOnes (body vb ((rpuBytes data).drop 1)).length))) := by
+      simp only [body, List.append_assoc]
+    rw [e, preBits_split, ← hpl]
+    unfold declaredSize
+    rw [P.bind_of_ok (readN_toBits 16 0x3B _ (by decide))]
+    rw [P.bind_of_ok (readN_toBits 32 0x800 _ (by decide))]
+    exact parseEmdf_written _ hl1 hrd
+  · rw [outBytes_length hvb, hpl]
+
+/-- non-vacuity of the two "whenever the wrapper succeeds" theorems -/
+example : (wrap (0x19 :: List.replicate 30 7 ++ [0x80, 0, 0])).isOk = true := by decide
+
+/-- the lower end: a 21-byte buffer (payload 20) is wrapped, but the 33-byte result is below the reader's
+34-byte minimum and is refused; with the country code it is 34 bytes and is read back -/
+theorem short_payload_not_read_back :
+    ∃ o, wrap (0x19 :: List.replicate 19 7 ++ [0x80]) = .ok o ∧ o.length = 33 ∧ unwrap o = .error ∧
+      unwrap (0xB5 :: o) = .ok (0x19 :: List.replicate 19 7 ++ [0x80]) := by
+  obtain ⟨o, hw, _, hu⟩ := av1_roundtrip_complete (0x19 :: List.replicate 19 7 ++ [0x80])
+    (by decide) (by decide) (by decide) (by decide)
+  unfold wrapComplete at hw
+  cases hw' : wrap (0x19 :: List.replicate 19 7 ++ [0x80]) with
+  | ok o' =>
+    rw [hw'] at hw
+    cases hw
+    obtain ⟨o2, hw2, hl2⟩ := wrap_never_fails (0x19 :: List.replicate 19 7 ++ [0x80]) (by decide) (by decide) (by decide)
+    rw [hw'] at hw2
+    cases hw2
+    have hl : o'.length = 33 := by rw [hl2]; decide
+    refine ⟨o', rfl, hl, ?_, ?_⟩
+    · unfold unwrap trim
+      simp [hl, Res.bind]
+    · rw [hu]; decide
+  | error => rw [hw'] at hw; cases hw
+  | panic => rw [hw'] at hw; cases hw
+
+/-! ## composition with the RPU parser -/
+
+/-- **C15, the RPU comes back.** Every buffer `DoviRpu::parse` accepts, of 22 … 65792 bytes before its zero
+padding, is wrapped without error, and `DoviRpu::parse_itu_t35_dovi_metadata_obu` of the result — with or
+without the country code — is the same RPU (every field, the stored CRC included) with `trailing_zeroes = 0`. -/
+theorem obu_roundtrip (data : Bytes) (r : Rpu) (hp : parseRpu data = .ok r)
+    (hlo : 22 ≤ data.length - trailingZeroes data) (hhi : data.length - trailingZeroes data ≤ 65792) :
+    ∃ o, wrap data = .ok o ∧ wrapComplete data = .ok (0xB5 :: o) ∧
+      parseObu o = .ok { r with trailing_zeroes := 0 } ∧
+      parseObu (0xB5 :: o) = .ok { r with trailing_zeroes := 0 } := by
+  obtain ⟨h19, hlast, _⟩ := parseRpu_ok_shape hp
+  obtain ⟨o, hw, hu⟩ := av1_roundtrip data h19 hlast hlo hhi
+  obtain ⟨o', hw', _, hu'⟩ := av1_roundtrip_complete data h19 hlast (by omega) hhi
+  have hc : wrapComplete data = .ok (0xB5 :: o) := by unfold wrapComplete; rw [hw]; rfl
+  rw [hc] at hw'
+  cases hw'
+  have hpr : parseRpu (rpuBytes data) = .ok { r with trailing_zeroes := 0 } := by
+    rw [parseRpu_take data hlast, hp]; rfl
+  refine ⟨o, hw, hc, ?_, ?_⟩
+  · unfold parseObu; rw [hu]; exact hpr
+  · unfold parseObu; rw [hu']; exact hpr
+
+/-- the general statement behind it: the OBU parser on the wrapped bytes is the RPU parser on the bytes without
+their zero padding — for any `0x19 … 0x80 00*` buffer in the size range, valid RPU or not (errors and panics of
+the RPU parser are reproduced too) -/
+theorem obu_parse_eq (data : Bytes) (h19 : data.head? = some 0x19)
+    (hlast : (rpuBytes data).getLast? = some 0x80)
+    (hlo : 22 ≤ data.length - trailingZeroes data) (hhi : data.length - trailingZeroes data ≤ 65792) :
+    ∃ o, wrap data = .ok o ∧ parseObu o = parseRpu (rpuBytes data) ∧
+      parseRpu (rpuBytes data) = (parseRpu data).bind fun r => .ok { r with trailing_zeroes := 0 } := by
+  obtain ⟨o, hw, hu⟩ := av1_roundtrip data h19 hlast hlo hhi
+  refine ⟨o, hw, ?_, parseRpu_take data hlast⟩
+  unfold parseObu; rw [hu]; rfl
+
+/-- from the in-memory side: what `write_rpu_data` emits for an RPU of the parser's shape, wrapped and parsed
+back as an OBU, is that RPU (with the recomputed CRC — the stored one when unmodified —, `modified` cleared and
+no trailing zero bytes) -/
+theorem obu_roundtrip_written (r : Rpu) (bytes : Bytes) (hw : writeRpu r = .ok bytes) (hwf : RpuWf r)
+    (hlo : 22 ≤ bytes.length - trailingZeroes bytes) (hhi : bytes.length - trailingZeroes bytes ≤ 65792) :
+    ∃ o crc, wrap bytes = .ok o ∧
+      parseObu o = .ok { r with rpu_data_crc32 := crc, modified := false, trailing_zeroes := 0 } ∧
+      (r.modified = false → crc = r.rpu_data_crc32) := by
+  obtain ⟨crc, hp, hcrc⟩ := parseRpu_writeRpu r bytes hw hwf
+  obtain ⟨o, hwr, _, hpo, _⟩ := obu_roundtrip bytes _ hp hlo hhi
+  exact ⟨o, crc, hwr, hpo, hcrc⟩
+
+set_option maxRecDepth 8000 in
+/-- non-vacuity: the generator's profile 8.1 RPU (`C03.exRpu`, which meets `RpuWf` and is written) has a size in
+the range, so it is wrapped and parsed back from the OBU -/
+example : ∃ bytes o crc, writeRpu C03.exRpu = .ok bytes ∧ wrap bytes = .ok o ∧
+    parseObu o = .ok { C03.exRpu with rpu_data_crc32 := crc, modified := false, trailing_zeroes := 0 } := by
+  have hsz : (match writeRpu C03.exRpu with
+    | .ok bytes => decide (22 ≤ bytes.length - trailingZeroes bytes ∧ bytes.length - trailingZeroes bytes ≤ 65792)
+    | _ => false) = true := by decide
+  cases hw : writeRpu C03.exRpu with
+  | ok bytes =>
+    rw [hw] at hsz
+    have hsz' := of_decide_eq_true hsz
+    obtain ⟨o, crc, h1, h2, _⟩ := obu_roundtrip_written _ _ hw C03.exRpu_wf.1 hsz'.1 hsz'.2
+    exact ⟨bytes, o, crc, rfl, h1, h2⟩
+  | error => rw [hw] at hsz; cases hsz
+  | panic => rw [hw] at hsz; cases hsz
 
 end Dovi.C15
